@@ -392,9 +392,11 @@ def chainEvents (ignore : Bool) : List Op → List (Ev Val) → List (Ev Val)
   | op :: ops, evs => chainEvents ignore ops (opEvents ignore op op.s0 evs)
 
 /-- No skippable error is ever *passed on*: neither the source nor the output routing of an
-operator raises one.  (With skipping off this is vacuous: every error is terminal.)  The real
-runner treats a passed-on skippable error differently depending on the next operator — finding
-F-C12-passed-on — so the refinement theorem assumes there is none. -/
+operator raises one.  (With skipping off this is vacuous: every error is terminal.)  Under this
+condition `opEvents` / `chainEvents` are the whole story.  Without it the real runner *skips* a
+passed-on skippable error at the next operator, whatever its kind (`apply` / `select`: the guard of
+`map_ignore_error`; `assign` / `filter` / `sink`: the wrapper in `processed_with_inputs` — the
+repair of finding F-C12-passed-on): that reference is `chainEventsS` below. -/
 def Clean (ignore : Bool) (evs : List (Ev Val)) : Prop :=
   ∀ e, Except.error e ∈ evs → terminal ignore e = true
 
@@ -484,6 +486,27 @@ def annot : Nat → List (Ev Val) → List (AEv Val)
   | _, [] => []
   | n, e :: rest => ⟨e, n + 1⟩ :: annot (n + 1) rest
 
+/-- When `true` the repaired `processed_with_inputs` is modelled (finding F-C12-passed-on): with
+`ignore_error` the input iterator is wrapped in `iter_ignore_error` *before* it is teed
+(`input_iterator = iter_ignore_error(input_iterator)`), so a skippable error raised by the input
+iterator itself — a failing element of the data source, the unguarded output routing of the previous
+operator — is skipped there and never reaches `process_fn`.  The unrepaired code let it surface from
+`process_fn` as a `_SKIP` marker, whose `zip` partner was an input that had never been recorded:
+`IndexError('No element left')` (`pwi`, third clause). -/
+def passedOnFixed : Bool := true
+
+/-- the source iterator of an `assign` / `filter` / `sink`, seen through `_TeeIterator.__next__` over
+`iter_ignore_error(input_iterator)` (`skip`: the wrapper is there).  `iter_ignore_error` without an
+`error_return` reads on after a skippable error, so one `next()` of the tee may consume several events of
+the source; `used` keeps counting events of the *raw* source.  A non-skippable error finalises the
+wrapper (a generator), which is immaterial: nothing after a terminal error is ever requested. -/
+def annotSkip (skip : Bool) : Nat → List (Ev Val) → List (AEv Val)
+  | _, [] => []
+  | n, .ok r :: rest => ⟨.ok r, n + 1⟩ :: annotSkip skip (n + 1) rest
+  | n, .error e :: rest =>
+    if skip && e.ignorable then annotSkip skip (n + 1) rest
+    else ⟨.error e, n + 1⟩ :: annotSkip skip (n + 1) rest
+
 /-- built-in `map` (resumable) -/
 def aMap {α β : Type} (f : α → Ev β) : List (AEv α) → List (AEv β)
   | [] => []
@@ -569,8 +592,9 @@ def countOk : List (Ev Val) → Nat
   | .ok _ :: rest => countOk rest + 1
   | .error _ :: rest => countOk rest
 
-/-- `processed_with_inputs(process_fn, input_iterator, ignore_error)` (iter_utils.py:1249–1268):
+/-- `processed_with_inputs(process_fn, input_iterator, ignore_error)` (iter_utils.py:1285–1311):
 ```
+if ignore_error: input_iterator = iter_ignore_error(input_iterator)     # repaired, F-C12-passed-on: `annotSkip`
 iter_input = _TeeIterator(input_iterator)
 iter_output = process_fn(iter_input)
 if ignore_error:
@@ -578,7 +602,8 @@ if ignore_error:
   return ((o, i) for o, i in zip(iter_output, iter_input.tee()) if o is not _SKIP)
 return zip(iter_output, iter_input.tee())
 ```
-`src`: the events of `input_iterator`; `outs`: the events of `process_fn(iter_input)`;
+`src`: the events of the raw `input_iterator` (the tee buffers its successful reads only, with or
+without the wrapper); `outs`: the events of `process_fn(iter_input)`;
 `popped`: how many records `tee()` has re-read.  After each output (or `_SKIP`) `zip` asks
 `tee()` for one record: the oldest buffered one; if the buffer is empty `tee()` ends the `zip`
 when the source is exhausted and raises `IndexError('No element left')` otherwise. -/
@@ -627,6 +652,8 @@ def opIterate (ignore : Bool) (op : Op) (srcEvs : List (Ev Val)) : AStream Val :
   -- nothing after a terminal error of the source is ever requested
   let srcC := cutTerminal ignore srcEvs
   let src : AStream Val := ⟨annot 0 srcC, srcC.length + 1⟩
+  -- the source behind `processed_with_inputs`' `iter_ignore_error` wrapper
+  let srcT (skip : Bool) : AStream Val := ⟨annotSkip (skip && passedOnFixed) 0 srcC, srcC.length + 1⟩
   let fin (evs : List (AEv Val)) (endUsed : Nat) : AStream Val :=
     let evs := aCut ignore evs
     ⟨evs, if endsInError evs then lastUsed evs else endUsed⟩
@@ -637,16 +664,16 @@ def opIterate (ignore : Bool) (op : Op) (srcEvs : List (Ev Val)) : AStream Val :
     fin (aMap (fun outs => liftErr (getOutputs op .null outs)) inner.evs) inner.endUsed
   | .assign =>
     -- it.starmap(self._get_outputs, processed_with_inputs(self._iterate, iter(it), ignore_error=...))
-    let inner := iterate false op src
+    let inner := iterate false op (srcT ignore)
     let paired := pwi ignore srcC 0 inner.evs
     fin (aMap (fun (outs, r) => liftErr (getOutputs op r outs)) paired) inner.endUsed
   | .filter =>
-    let inner := iterate false op src
+    let inner := iterate false op (srcT (ignore && f17Fixed))
     let paired := pwi (ignore && f17Fixed) srcC 0 inner.evs
     fin (filterGen paired) inner.endUsed
   | .sink =>
     -- try: yield from (elem for _, elem in processed_with_inputs(...)) finally: close()
-    let inner := iterate false op src
+    let inner := iterate false op (srcT ignore)
     let paired := pwi ignore srcC 0 inner.evs
     fin (aMap (fun (_, r) => .ok r) paired) inner.endUsed
 
@@ -784,6 +811,62 @@ def skipNT {α : Type} (ignore : Bool) : List (Ev α) → List (Ev α)
   | [] => []
   | .ok a :: rest => .ok a :: skipNT ignore rest
   | .error e :: rest => if terminal ignore e then .error e :: skipNT ignore rest else skipNT ignore rest
+
+/-- **The reference for a chain over ANY source** (no `Clean` condition): every operator skips the
+skippable errors that are passed on to it — failing reads of the data source in front of the first
+operator, skippable errors of the previous operator's output routing in front of the others — and
+processes what is left record by record (`opEvents`).  What the last operator passes on reaches the
+caller (`cutTerminal`: the runner's own iterator is a generator, any error ends it). -/
+def chainEventsS (ignore : Bool) : List Op → List (Ev Val) → List (Ev Val)
+  | [], evs => cutTerminal ignore evs
+  | op :: ops, evs => chainEventsS ignore ops (opEvents ignore op op.s0 (skipNT ignore evs))
+
+/-- the (normalised) results of the calls of one operator, record by record (`semCall`, the function's
+state threaded), up to the first error — a failing read of the source or a failing call -/
+def callOuts (op : Op) : Nat → List (Ev Val) → List (Ev (List Val))
+  | _, [] => []
+  | _, .error e :: _ => [.error e]
+  | s, .ok r :: rest =>
+    match semCall op s r with
+    | (.ok v, s') => .ok (normOuts op v) :: callOuts op s' rest
+    | (.error e, _) => [.error e]
+
+/-- a tuple of `nc` columns (`list` / `tuple`) of exactly `r` rows each -/
+def fullColsB (nc r : Nat) (cols : List Val) : Bool :=
+  cols.length == nc &&
+  cols.all fun c => match c with
+    | .list xs => xs.length == r
+    | .tuple xs => xs.length == r
+    | _ => false
+
+/-- the number of rows of the first column -/
+def rowsOfCols (cols : List Val) : Nat := (asCol (cols.headD .none)).rows.length
+
+/-- Boolean form of `AlignedCalls` (`Lemmas/PipeAligned.lean`): every call result has exactly `t` rows,
+the last of a stream that ends normally `1..t`; the error the stream breaks off with ends the run -/
+def alignedCallsB (ignore : Bool) (t nc : Nat) : List (Ev (List Val)) → Bool
+  | [] => true
+  | .error e :: _ => terminal ignore e
+  | [.ok cols] => decide (0 < rowsOfCols cols) && decide (rowsOfCols cols ≤ t) && fullColsB nc (rowsOfCols cols) cols
+  | .ok cols :: y :: ys => fullColsB nc t cols && alignedCallsB ignore t nc (y :: ys)
+
+/-- `SelfAlone` (`Lemmas/Pipe.lean`) as a Boolean -/
+def selfAloneB (op : Op) : Bool :=
+  match op.outKeys with
+  | k :: _ :: _ => !k.isSelf
+  | _ => true
+
+/-- Boolean form of `AssignAlignedOK` -/
+def assignAlignedOKB (ignore : Bool) (op : Op) (src : List (Ev Val)) : Bool :=
+  op.kind == .assign && op.fnBatch == 0 && decide (0 < op.batch) && decide (0 < op.outKeys.length) &&
+  selfAloneB op && alignedCallsB ignore op.batch op.outKeys.length (callOuts op op.s0 (skipNT ignore src))
+
+/-- Boolean form of `RunOKA` up to `OpOK.pred` (a predicate never returns a tuple: not decidable) -/
+def runOKAB (ignore : Bool) : List Op → List (Ev Val) → Bool
+  | [], _ => true
+  | op :: ops, evs =>
+    ((op.fnBatch == 0 && op.batch == 0 && selfAloneB op) || assignAlignedOKB ignore op evs) &&
+    runOKAB ignore ops (opEvents ignore op op.s0 (skipNT ignore evs))
 
 /-- the four steps up to the regrouped output columns -/
 def batchedCols (ignore : Bool) (op : Op) (s : Nat) (src : List (Ev Val)) :
